@@ -683,13 +683,16 @@ func TestCheck(t *testing.T) {
 		r.Finish()
 	}
 	if _, child := runner.IsShard(); !child && runner.ReplayPath() == "" {
-		r.RunJobs(njobs+len(backends)*xshards, 30+len(backends)*xshards, budget+3*time.Minute)
+		// the transport jobs come last and take the places of the HTTP jobs as these finish (their budget runs from their own start)
+		r.RunJobs(njobs+len(xjobs(backends)), 30, budget+3*time.Minute)
 	}
 	schedPart(r, t)
 	pullDuplicates(r, t)
 	pullStaleDuplicates(r, t)
-	r.Assume("operator cancel/requeue are applied through the Store (the Admin layer in front of them is C14/C15); gRPC status mapping is a thin switch over the same pullapi operations and is exercised by C07/C11")
-	r.Assume("lease ids with surrounding blanks are trimmed by the API layer before they reach the store; blank ids are refused with 400 by the API and are not part of this alphabet")
+	r.Assume("operator cancel/requeue are applied through the Store (the Admin layer in front of them is C14/C15)")
+	r.Assume("the deep HTTP search (depth 5/4 quick) uses lease ids exactly as handed out; the worker gRPC transport and re-spelled lease ids are part of the transport search only (one operation less deep; re-spelled ids in the last two operations of histories of the spelling depth); the controlled-scheduler part stays at the Store / pull HTTP level (a grpc.Server runs goroutines the scheduler does not own), overlapping calls over both transports only run free under -race")
+	r.Assume("a padded or re-cased lease id may be read as the id itself or as an id nobody was handed, a blank-only id as no id or as an unknown id (the documents do not say); the oracle accepts whichever reading explains the whole answer of the call")
+	r.Set("rule:transport", "every history up to the transport depth (memory 4 / SQLite 3 quick, 5 / 4 thorough) over the HTTP alphabet with every lease operation (dequeue 1/2, ack, nack, delayed nack, dead-letter, extend, batch ack/nack) issued over the pull HTTP handler or over the real worker grpc.Server behind the in-memory listener, per operation, both in front of the one pullapi.Server that startServers builds; in the last two operations of histories up to the spelling depth (memory 3 / SQLite 2 quick, 4 / 3 thorough) the ids in the lease-id positions are also re-spelled: leading blank, trailing newline, tab+blank .. blank+CR LF, upper-cased, blank-only (thorough adds trailing blank, tab, CR LF, blank both sides, NBSP, VT/FF, zero-width space), alone, next to an id as handed out, the same id twice with different padding, next to a blank-only id; oracle: the C04 judge (contract model + idempotent-duplicate rule + full listing) on the call in handle terms under ONE reading of its re-spelled ids (same id / unknown id; blank-only: no id / unknown id), gRPC OK / FailedPrecondition / InvalidArgument and the per-id conflict list mapped onto ok / conflict / malformed; after every step every id that is stale in the contract state and every spelling just used is presented again (single and batch, ack and nack, HTTP and - after a gRPC step - gRPC): success only as the duplicate of an identical operation that really succeeded inside the window, listing byte-identical")
 	r.Set("rule", "every history up to the depth over {dequeue batch 1/2, ack/nack/dead-letter/extend with each of the 3 newest lease ids and an unknown id, batch ack/nack with duplicates, stale and unknown ids mixed, operator cancel/requeue, clock +1 ns/+1 s/+ttl/+ttl+1 s/to the idempotency-window end - 1 ns} through the pull HTTP handler wired by startServers, on memory and SQLite, in a virtual-time bubble; oracle: qmodel for the store contract plus the idempotent-duplicate rule (a stale call may succeed only as a duplicate of an identical operation that succeeded less than RecentLeaseOpTTL ago, and then without effect), full listing compared after every step; states de-duplicated on contract state + clock + remembered duplicates + issued leases; plus schedules: every interleaving (memory: all; SQLite: within the preemption bound) of a worker presenting lease a#1 in single and batch form while the clock passes its expiry, a second worker re-leases and settles the message and an operator cancels/requeues, linearizability against qmodel")
 	r.Finish()
 }
